@@ -515,7 +515,7 @@ class GroupBy:
             key_map=key_map,
         )
 
-    @cached_property
+    @property
     def groups(self):
         """
         Dict mapping group names to row labels.
@@ -529,7 +529,8 @@ class GroupBy:
             Dictionary with group names as keys and arrays of row indices as
             values
         """
-        indexer = self._group_sort_indexer
+        # a copy: the arrays handed out must not be views of the cached indexer
+        indexer = self._group_sort_indexer.copy()
         key_count = self.ikey_count[self._labels_argsort]
         group_indexers = np.array_split(indexer, np.cumsum(key_count)[:-1])
         return {
